@@ -203,11 +203,31 @@ func filterChecks(c *Ctx, r *Report, selection bool) {
 									if ev.Kind == "call" && strings.HasPrefix(ev.Name, "(*lint.registryImpl).register") {
 										regs = append(regs, ev)
 									}
-									if ev.Kind == "call" && ev.Name == "(*lint.registryImpl).SetConfiguration" && len(ev.Args) == 2 && ev.Args[0].String() == newReg && ev.Args[1].String() == recv+".configuration" {
+									if ev.Kind == "call" && ev.Name == "(*lint.registryImpl).SetConfiguration" && len(ev.Args) == 2 && isNewRegTerm(ev.Args[0], newReg) && ev.Args[1].String() == recv+".configuration" {
 										cfgOK = true
 									}
 									if ev.Kind == "store" || ev.Kind == "mapupdate" {
 										r.Bad("filter-selection", key+"|effect", fn.Pos(), "Filter writes "+ev.String())
+									}
+								}
+								// a registry built by a constructor newer than the rules: a fresh object whose
+								// configuration field the literal itself sets to the parent's configuration
+								for _, cand := range append([]*T{o.Results[0]}, func() []*T {
+									var as []*T
+									for _, ev := range regs {
+										if len(ev.Args) > 0 {
+											as = append(as, ev.Args[0])
+										}
+									}
+									return as
+								}()...) {
+									if cand != nil && cand.Op == "obj" {
+										if v := o.Field(cand, "configuration"); v != nil && v.String() == recv+".configuration" {
+											cfgOK = true
+										}
+										if v := o.Lit["&"+strings.TrimPrefix(cand.String(), "&")+".configuration"]; v != nil && v.String() == recv+".configuration" {
+											cfgOK = true
+										}
 									}
 								}
 								bad := ""
@@ -220,7 +240,7 @@ func filterChecks(c *Ctx, r *Report, selection bool) {
 									ev := regs[0]
 									if ev.Name != "(*lint.registryImpl)."+k.reg {
 										bad = "a " + k.name + " lint is registered with " + ev.Name
-									} else if len(ev.Args) != 2 || ev.Args[0].String() != newReg || ev.Args[1].String() != found {
+									} else if len(ev.Args) != 2 || !isNewRegTerm(ev.Args[0], newReg) || ev.Args[1].String() != found {
 										bad = fmt.Sprintf("the filtered registry must receive the very lint found under the name (%s); it receives %v", found, ev.Args)
 									}
 								}
@@ -229,7 +249,7 @@ func filterChecks(c *Ctx, r *Report, selection bool) {
 										if !o.Results[0].IsNil() || o.Results[1] != regs[0].Result {
 											bad = "a registration error is not returned (with a nil registry)"
 										}
-									} else if o.Results[0].String() != newReg || !o.Results[1].IsNil() {
+									} else if !isNewRegTerm(o.Results[0], newReg) || !o.Results[1].IsNil() {
 										bad = fmt.Sprintf("Filter returns (%s, %s) instead of (the new registry, nil)", o.Results[0], o.Results[1])
 									}
 								}
@@ -506,4 +526,11 @@ func c08Empty(c *Ctx, r *Report) {
 		}
 	}
 	r.Check(bad == "", "filter-empty", "Empty table", fn.Pos(), "true iff nothing is set", bad)
+}
+
+// isNewRegTerm: the term is the registry Filter builds — the result of
+// lint.NewRegistry(), or an object allocated on this path (a constructor newer
+// than the rules, inlined).
+func isNewRegTerm(t *T, newReg string) bool {
+	return t != nil && (t.String() == newReg || (t.Op == "obj" && strings.HasPrefix(t.String(), "&")))
 }
